@@ -90,6 +90,7 @@ type IVar struct {
 	to     Lin
 	def    func(r *renderer) string // defining SMT term for non-linear results
 	eval   func(m *Model) int64     // concrete evaluation of the definition
+	defLo, defHi int64              // interval at definition time (a refined interval carries information)
 	deps   []int                    // ivars the definition mentions
 	depsNF []NF
 	input  bool
@@ -1253,6 +1254,48 @@ func (p *Path) check(extra []*B, slice, exact, model, important bool) (Tri, map[
 					}
 				}
 			}
+			// definitions connect a defined variable with what it is defined from
+			for _, dv := range p.ivars[1:] {
+				if dv.def == nil || dv.bound {
+					continue
+				}
+				da, dvs := map[int]bool{}, map[int]bool{}
+				p.markVar(dv.id, da, dvs)
+				if selVars[dv.id] {
+					for a := range da {
+						if !selAtoms[a] {
+							selAtoms[a] = true
+							changed = true
+						}
+					}
+					for v := range dvs {
+						if !selVars[v] {
+							selVars[v] = true
+							changed = true
+						}
+					}
+					continue
+				}
+				hit := false
+				for a := range da {
+					if selAtoms[a] {
+						hit = true
+						break
+					}
+				}
+				if !hit {
+					for v := range dvs {
+						if selVars[v] {
+							hit = true
+							break
+						}
+					}
+				}
+				if hit && (dv.lo != dv.defLo || dv.hi != dv.defHi || p.depVar[dv.id]) {
+					selVars[dv.id] = true
+					changed = true
+				}
+			}
 			for i, k := range lks {
 				if useLk[i] {
 					continue
@@ -1311,6 +1354,13 @@ func (p *Path) check(extra []*B, slice, exact, model, important bool) (Tri, map[
 		for _, v := range p.ivars[1:] {
 			if !v.bound && v.atom == 0 {
 				r.vars[v.id] = true
+			}
+		}
+	}
+	if slice {
+		for v := range selVars {
+			if p.ivars[v].def != nil && !p.ivars[v].bound {
+				r.vars[v] = true
 			}
 		}
 	}
